@@ -60,8 +60,20 @@ def keyword_lookalikes():
             seen.add(w); res.append(w)
     return res
 
+FOREIGN_NUMERALS = ['0x10', '0xFF', '0Xff', '0x', '0xg', '0b101', '0o17', '017', '1e5', '1E5', '1e+5', '1e-5', '1e', '1_000', '1__0', '1_', '_1', '1.', '.5', '1..2', '1.2.3', '1f', '1L', '1n', '1u',
+                    '0.1f', '1d', '1,000', '1,00,000', '12,345.6', '1 000', "1'000", '১,০০০', '১০,২০০', '৫,১০০', '১,২০,৩০০', '১_০০০', '০x১০', '১e৫', '১.', '.৫', '১..২', '1/2', '1:2', '1%', '১%', '$1', '#1', '1st', '2nd', '১ম',
+                    '0.', '00', '007', '০০৭', '1.0e10', 'Infinity', 'inf', 'NaN', '+1', '-1', '--1', '+-1', '1+', '1-', '1e--5']
+
+def foreign_numeral_texts():
+    out = []
+    for t in FOREIGN_NUMERALS:
+        out += [t, t + ';', '[' + t + ']', 'f(' + t + ')', 'x=' + t + ';', t + ' ' + t, '(' + t + ',' + t + ')', t + '+' + t, '"' + t + '"']
+    return out
+
 def c09(tier, rng):
     cases = []
+    for t in foreign_numeral_texts():
+        cases.append(run_case('lex', t, label='foreign-numeral'))
     maxlen = 3
     from .words import WORDS
     for w in WORDS:
@@ -120,7 +132,7 @@ def c09(tier, rng):
         cases.append(Case('bad-utf8', req('lex', bs), LEXKEYS, src=bs.decode('latin1')))
     rule = (f'every string of <= {maxlen} fragments over {len(FRAGS)} lexical fragments' +
             (f', every string of <= 4 over {len(FRAGS_SMALL)} fragments' if tier == 'thorough' else '') +
-            f'; characters whose low byte is an operator / digit / quote / blank character, after each operator prefix ({len(opchars)} x {len(highs)} code points x 15 contexts); four texts of 100 000 – 1 000 000 distinct names / numbers in either script; {len(keyword_lookalikes())} keyword look-alikes (other normalisation forms, joiners, neighbours); {len(WORDS)} natural-language words (Bangla and English logic / arithmetic / control words that are NOT keywords) in 9 contexts; single code points (step {step} above U+3100, all below, each also inside a word); {n} seeded random texts with '
+            f'; characters whose low byte is an operator / digit / quote / blank character, after each operator prefix ({len(opchars)} x {len(highs)} code points x 15 contexts); {len(FOREIGN_NUMERALS)} numeral spellings of other languages and locales (hex, octal, exponents, digit-group separators in both scripts, suffixes) in 9 contexts; four texts of 100 000 – 1 000 000 distinct names / numbers in either script; {len(keyword_lookalikes())} keyword look-alikes (other normalisation forms, joiners, neighbours); {len(WORDS)} natural-language words (Bangla and English logic / arithmetic / control words that are NOT keywords) in 9 contexts; single code points (step {step} above U+3100, all below, each also inside a word); {n} seeded random texts with '
             'multi-line strings and comments; malformed UTF-8. Non-trivial = produces a token other than EOF or a diagnostic.')
     return {'cases': cases, 'rule': rule, 'exhaustive': True}
 
@@ -162,7 +174,10 @@ def c10(tier, rng):
         cases.append(run_case('lex', chr(cp), label='digit-class'))
         cases.append(run_case('lex', '1' + chr(cp), label='digit-class'))
         cases.append(run_case('lex', '1.' + chr(cp), label='digit-class'))
-    alpha = ['0', '1', '9', '০', '৫', '৯', '.']
+    for t in foreign_numeral_texts():
+        cases.append(run_case('lex', t, label='foreign-numeral'))
+        cases.append(run_case('run', KW['print'] + ' ' + t + ';', label='foreign-numeral-print', keys=('O', 'E', 'F')))
+    alpha = ['0', '1', '9', '০', '৫', '৯', '.', ',']
     maxlen = 5 if tier == 'quick' else 6
     for s in all_strings(alpha, maxlen):
         if s:
@@ -187,7 +202,7 @@ def c10(tier, rng):
             cases.append(run_case('lex', v, label='literal', group=g))
         cases.append(run_case('run', KW['print'] + ' ' + sw + ';', label='literal-print', keys=('O', 'E', 'F')))
     rule = (f'utils.ConvertBanglaDigitsToASCII on every code point (step {step} above U+20000); digit classification around both digit ranges; '
-            f'every string of <= {maxlen} over {alpha}; {len(lits)} seeded literals up to 400 digits (halfway cases, subnormals, overflow threshold) and {len(ll)} of {min(len(x) for x in ll)}..{max(len(x) for x in ll)} characters whose value is decided by their last digits, '
+            f'{len(FOREIGN_NUMERALS)} numeral spellings of other languages and locales in 9 contexts, lexed and printed; every string of <= {maxlen} over {alpha}; {len(lits)} seeded literals up to 400 digits (halfway cases, subnormals, overflow threshold) and {len(ll)} of {min(len(x) for x in ll)}..{max(len(x) for x in ll)} characters whose value is decided by their last digits, '
             'each in ASCII, mixed and Bangla script (the three must give the same Literal bits), and printed. Non-trivial = NUMBER token or diagnostic.')
     return {'cases': cases, 'raw': raw, 'rule': rule, 'exhaustive': tier == 'thorough',
             'oracles': [oracle_same_literal]}
@@ -380,6 +395,10 @@ def c01(tier, rng, for_c08=False):
         for t in (f'{w} - 3;', f'{w}(v);', f'{w}[0];', f'{w}.p;', f'{w} = 1;', f'-{w};', f'!{w};', f'a + {w} * b;', f'{w} (a) - b;', f'x = {w} - -1;',
                   f'f({w}, {w} - 1);', f'a {w} b;', f'{w} {w};', f'a && {w} || {w}(1);', f'[{w}, {w}(2)][{w}];', f'{{{w}: {w}}};'):
             cases.append(run_case('parse', t, label='natural-word'))
+    # a property may be named like a built-in or any other word: the suffix chain is the same chain
+    for w in list(NAT.values()) + WORDS[:30]:
+        for t in (f'o.{w}(x);', f'o.{w};', f'o.{w} = 1;', f'(o.{w})(x);', f'o.{w}(x)(y).{w}[0];', f'o.p.{w}(1, 2);', f'f(o.{w}(x), {w}(o));', f'{{{w}: 1}};', f'-o.{w}(x) ** 2;', f'o[0].{w}(x);', f'o.{w}.{w}(o.{w});'):
+            cases.append(run_case('parse', t, label='property-named-like-builtin'))
     for op_ in ['||', '&&', '|', '^', '&', '==', '!=', '<', '>=', '<<', '>>', '-', '+', '/', '*', '%', '**']:
         for n_ in ([49, 60] if tier == 'quick' else [33, 48, 49, 50, 64, 65, 129, 300]):
             cases.append(run_case('parse', f' {op_} '.join(f'a{i}' for i in range(n_)) + ';', label='long-chain'))
@@ -474,6 +493,15 @@ def c08(tier, rng):
     for w in WORDS:
         cases.append(run_case('parse', f'{KW["var"]} {w} = 1;\n{KW["fun"]} f({w}) {{ {KW["return"]} {w}; }}\n{KW["print"]} {w} - 1;\n{KW["if"]} ({w}) {w}(1); {KW["else"]} {w} = 2;\n', label='natural-word'))
         cases.append(run_case('parse', f'{KW["fun"]} {w}() {{}}\n{w}();\n{KW["for"]} ({KW["var"]} {w}1 = 0; {w}1 < 2; {w}1 = {w}1 + 1) {w};\n', label='natural-word'))
+    # words that are not keywords but look like one (other normalisation forms, a joiner, a neighbour letter)
+    # where the keyword would stand, and as a declared name
+    for w in keyword_lookalikes():
+        for t in (f'{KW["if"]} (1) {{ {KW["print"]} 1; }} {w} {{ {KW["print"]} 2; }}', f'{KW["var"]} {w} = 7;\n{KW["print"]} {w};', f'{w} (1) {{ }}', f'{w} x = 1;', f'{w};', f'{KW["fun"]} {w}() {{}}',
+                  f'{KW["while"]} (1) {{ {w}; }}', f'{KW["fun"]} g() {{ {w} 1; }}', f'{KW["print"]} {w};', f'{KW["print"]} 1 {w} 2;'):
+            cases.append(run_case('parse', t + '\n', label='keyword-lookalike'))
+    for w in list(NAT.values()):
+        for t in (f'o.{w}(x);', f'o.{w} = 1;', f'{{{w}: 1}};', f'{KW["var"]} {w} = 1;', f'{KW["fun"]} {w}() {{}}', f'{KW["fun"]} f({w}) {{ {w}(1); }}'):
+            cases.append(run_case('parse', t + '\n', label='property-named-like-builtin'))
     # the texts দেখাও produces, read back as source: only what the grammar says is a program is one
     for t in ['1e+21', '1e-07', '1.5e+300', '2e+06', '+Inf', '-Inf', 'NaN', '-0', '[1 2 3]', '[1 2 3][0]', 'map[a:1]', 'map[a:1 b:2]', '<nil>', '<fn f>', '<native fn>', '1e21', '1E+5', '1.e+2', '0x10', '1_000', '.5', '5.', '1e', '১e+২', '1e+', '1e-x']:
         for ctx in ('{P} {t};', '{V} y = {t};', '{V} y = {t} + 1;', '{t};', 'f({t});', '[{t}];'):
